@@ -192,14 +192,9 @@ func (s *Sim) registerCallbacks(o *objRT) {
 				if ctx.Err() != nil {
 					break
 				}
-				t := time.NewTimer(s.plan.H / 3)
-				select {
-				case <-t.C:
-				case <-ctx.Done():
-				case <-s.teardownCh:
+				if s.sleepOrCtx(ctx, s.plan.H/3) {
 					i = 1 << 30
 				}
-				t.Stop()
 			}
 		}
 		s.mu.Lock()
@@ -806,4 +801,18 @@ func disconnectedCB(nc *nats.Conn) nats.ConnHandler {
 	mu.RLock()
 	defer mu.RUnlock()
 	return nc.Opts.DisconnectedCB
+}
+
+// sleepOrCtx waits d of virtual time, or until ctx is done; it reports whether teardown began.
+// (Its name is what the watchdog looks for to recognise a callback that waits for virtual time.)
+func (s *Sim) sleepOrCtx(ctx context.Context, d time.Duration) bool {
+	t := time.NewTimer(d)
+	defer t.Stop()
+	select {
+	case <-t.C:
+	case <-ctx.Done():
+	case <-s.teardownCh:
+		return true
+	}
+	return false
 }
